@@ -1,5 +1,5 @@
 (* C11 — lemma collection: normalisation (NormProofs, AvarMono), tent / compute_delta / DeltaSetIndexMap (TentProofs),
    raw row layout and totality (RowLayout), metrics glue (MetricsProofs), VariationStoreBuilder retrieval
    (IvsProofs, IvsRetrieval, SplitRule).  Props.v restates the property-level theorems. *)
-From FV Require Export C11.NormProofs C11.AvarMono C11.TentProofs C11.RowLayout C11.MetricsProofs
+From FV Require Export C11.NormProofs C11.U2NProofs C11.AvarMono C11.TentProofs C11.RowLayout C11.MetricsProofs
                        C11.IvsProofs C11.IvsRetrieval C11.SplitRule C11.IvsTotal.
